@@ -35,6 +35,23 @@ fn certified(img: &[u8]) -> Result<Option<&'static str>, String> {
     })
 }
 
+/// the same question when the corrupted bytes arrive through `map_data` on an FST that was opened from the good bytes
+fn certified_via_map_data(good: &[u8], img: &[u8]) -> Result<Option<&'static str>, String> {
+    guard(|| {
+        let f = match Fst::new(good.to_vec()) {
+            Ok(f) => f,
+            Err(_) => return None,
+        };
+        match f.map_data(|_| img.to_vec()) {
+            Err(_) => None,
+            Ok(g) => match g.verify() {
+                Ok(()) => Some("map_data() onto the corrupted bytes succeeds and verify() returns Ok"),
+                Err(_) => None,
+            },
+        }
+    })
+}
+
 fn outcome_class(img: &[u8]) -> &'static str {
     match Fst::new(img) {
         Err(_) => "outcome:open-rejected",
@@ -78,7 +95,15 @@ fn mutate_all(case: &Case, bytes: &[u8], exhaustive_values: bool, rng: &mut Rng,
             img[pos] = v;
             ev.eval(None);
             ev.count(region(len, pos));
-            match certified(&img) {
+            // every 4th mutant is additionally pushed through the map_data route (always in the footer region)
+            let via = if v % 4 == 1 || pos + 20 >= len { certified_via_map_data(bytes, &img) } else { Ok(None) };
+            let direct = certified(&img);
+            let both = match (direct, via) {
+                (Err(p), _) | (_, Err(p)) => Err(p),
+                (Ok(Some(w)), _) | (Ok(None), Ok(Some(w))) => Ok(Some(w)),
+                (Ok(None), Ok(None)) => Ok(None),
+            };
+            match both {
                 Err(p) => {
                     if bad < 3 {
                         ev.violate("verify-panic", format!("open/verify panicked on a single-byte mutant (offset {} {:#04x}->{:#04x}): {}", pos, orig, v, p), case.describe());
@@ -271,7 +296,7 @@ pub fn run(ctx: &Ctx) -> i32 {
         ev,
         Spec {
             level: "fault_enumeration",
-            rule: "three monitors. (a,b) one evaluation = one built FST (shared pool, two front ends, plus hostile chunked sinks): verify() must be Ok and the trailing 4 bytes must equal the masked CRC-32C of all preceding bytes computed by a bit-at-a-time reference. (c) one evaluation = one mutated image: for small FSTs EVERY offset x EVERY one of the 255 other byte values, plus bit flips sampled over corpus FSTs: the mutant must fail to open or fail verify() (never certified); 2-4 byte bursts are run for panics only. (d) for every length 36..4200 (thorough 20000) a synthetic version-3 image with random body and reference checksum must verify (all lengths mod 16, all tail lengths of the slice-by-16 path) and must not verify after one bit flip; non-trivial = every evaluation; distinct = by construction (fst, offset, value) / fingerprint",
+            rule: "three monitors. (a,b) one evaluation = one built FST (shared pool, two front ends, plus hostile chunked sinks): verify() must be Ok and the trailing 4 bytes must equal the masked CRC-32C of all preceding bytes computed by a bit-at-a-time reference. (c) one evaluation = one mutated image: for small FSTs EVERY offset x EVERY one of the 255 other byte values, plus bit flips sampled over corpus FSTs: the mutant must fail to open or fail verify() (never certified), both when opened directly and (every 4th mutant, all footer mutants) when it arrives through map_data on an FST opened from the good bytes; 2-4 byte bursts are run for panics only. (d) for every length 36..4200 (thorough 20000) a synthetic version-3 image with random body and reference checksum must verify (all lengths mod 16, all tail lengths of the slice-by-16 path) and must not verify after one bit flip; non-trivial = every evaluation; distinct = by construction (fst, offset, value) / fingerprint",
             assumptions: vec!["version byte 3->1/2 mutants open and report ChecksumMissing: that is 'not certified', as the statement's last clause requires".into()],
             floors,
             exhaustive: Some(true),
